@@ -112,13 +112,21 @@ package verifier
 //@   ensures [returns-the-presented-credentials] isNilIface(result.1) ==> result.0 == presentation.VerifiableCredential
 
 // ---- signature verification (C01, C17) ----
+// A JSON-LD credential also has to consist of members its context defines only: the canonical form
+// that is signed drops every other member (jsonld.AllFieldsDefined, the check the issuer applies).
+//@ func jsonld.AllFieldsDefined
+//@   trusted
+//@   benign
 //@ func (*signatureVerifier).VerifySignature
 //@   prop C01 C17
 //@   nullable validateAt
 //@   assume-benign
 //@   ensures [dispatch-on-format] isNilIface(result) ==>
 //@        (did(call (*signatureVerifier).jsonldProof #1) && isNilIface(ret(call (*signatureVerifier).jsonldProof #1))
-//@           && arg(call (*signatureVerifier).jsonldProof #1, 2) == credentialToVerify.Issuer.String() && arg(call (*signatureVerifier).jsonldProof #1, 3) == validateAt)
+//@           && arg(call (*signatureVerifier).jsonldProof #1, 2) == credentialToVerify.Issuer.String() && arg(call (*signatureVerifier).jsonldProof #1, 3) == validateAt
+//@           && did(call jsonld.AllFieldsDefined #1) && isNilIface(ret(call jsonld.AllFieldsDefined #1))
+//@           && isNilIface(ret(call json.Marshal #1).1) && arg(call jsonld.AllFieldsDefined #1, 1) == ret(call json.Marshal #1).0
+//@           && arg(call json.Marshal #1, 0) == any(credentialToVerify))
 //@     || (did(call (*signatureVerifier).jwtSignature #1) && isNilIface(ret(call (*signatureVerifier).jwtSignature #1))
 //@           && arg(call (*signatureVerifier).jwtSignature #1, 1) == credentialToVerify.Raw()
 //@           && arg(call (*signatureVerifier).jwtSignature #1, 2) == credentialToVerify.Issuer.String() && arg(call (*signatureVerifier).jwtSignature #1, 3) == validateAt)
